@@ -17,7 +17,10 @@ KINDS = ["ValueError", "Custom", "ZeroDiv", "Base", "None"]
 
 def def_formula(name, params, calls, const):
     """def with tick on line 2, one call per line from line 5 on."""
-    L = ["def %s(%s):" % (name, params), "    t = tick()", "    if t:", "        return None", "    s = %s" % const]
+    # line 2 reads a reference by attribute path BEFORE the fault point (tick, line 3): a failing formula
+    # leaves a pending reference read that the executor has to discard
+    L = ["def %s(%s):" % (name, params), "    z0 = _space.zz", "    t = tick() + z0", "    if t:", "        return None",
+         "    s = %s" % const]
     for c in calls:
         L.append("    s += " + c)
     L.append("    return s")
@@ -34,28 +37,30 @@ def shape_spec(shape):
         for i in range(n):
             calls = ["e%d()" % j for (j, kk) in edges if kk == i]
             cells["e%d" % i] = {"src": def_formula("e%d" % i, "", calls, 1 + 7 * i), "cached": i not in unc}
-        return {"refs": refs, "spaces": {"S": {"cells": cells}}}
+        return {"refs": refs, "spaces": {"S": {"refs": {"zz": 0}, "cells": cells}}}
     if k == "rec":      # recursion on the argument, one cells (optionally uncached)
-        src = "def v(i):\n    t = tick()\n    if t:\n        return None\n    if i > 0:\n        return v(i - 1) + 1\n    return 1\n"
-        return {"refs": refs, "spaces": {"S": {"cells": {"v": {"src": src, "cached": not shape.get("uncached")},
+        src = "def v(i):\n    z0 = _space.zz\n    t = tick() + z0\n    if t:\n        return None\n    if i > 0:\n        return v(i - 1) + 1\n    return 1\n"
+        return {"refs": refs, "spaces": {"S": {"refs": {"zz": 0},
+                                               "cells": {"v": {"src": src, "cached": not shape.get("uncached")},
                                                         "top": def_formula("top", "", ["v(2)", "v(1)"], 0)}}}}
     if k == "catcher":  # a formula that handles the failure of a callee and continues
         c = {"e0": def_formula("e0", "", [], 1),
              "e1": def_formula("e1", "", ["e0()"], 8),
-             "c": "def c():\n    t = tick()\n    try:\n        a = e1()\n    except Exception:\n        a = -1\n    b = e2()\n    return t + a + b\n",
+             "c": "def c():\n    t = tick() + _space.zz\n    try:\n        a = e1()\n    except Exception:\n        a = -1\n    b = e2()\n    return t + a + b\n",
              "e2": def_formula("e2", "", [], 15),
              "top": def_formula("top", "", ["c()", "e0()"], 0)}
-        return {"refs": refs, "spaces": {"S": {"cells": c}}}
+        return {"refs": refs, "spaces": {"S": {"refs": {"zz": 0}, "cells": c}}}
     if k == "lambda":   # lambdas, comprehension, generator
-        c = {"e0": "lambda: tick() + 1",
-             "e1": "lambda x: tick() + e0() + x",
+        c = {"e0": "lambda: _space.zz + tick() + 1",
+             "e1": "lambda x: _space.zz + tick() + e0() + x",
              "e2": "lambda: tick() + sum([e1(i) for i in range(2)])",
              "e3": "lambda: tick() + sum(e1(i) for i in range(3)) + e2()"}
-        return {"refs": refs, "spaces": {"S": {"cells": c}}}
+        return {"refs": refs, "spaces": {"S": {"refs": {"zz": 0}, "cells": c}}}
     if k == "item":     # ItemSpace: parameter formula and cells inside the instance as failure points
         P = {"formula": "def _formula(i):\n    t = tick()\n    return None\n",
+             "refs": {"zz": 0},
              "cells": {"c": def_formula("c", "", [], 3), "d": def_formula("d", "x", ["c()"], 0)}}
-        S = {"refs": {"P": {"obj": "P"}},
+        S = {"refs": {"P": {"obj": "P"}, "zz": 0},
              "cells": {"it": def_formula("it", "x", ["P[x].c()", "P[x].d(1)"], 0),
                        "top": def_formula("top", "", ["it(1)", "it(2)"], 0)}}
         return {"refs": refs, "spaces": {"P": P, "S": S}}
